@@ -161,6 +161,12 @@ func vfC17Silence(res *vfResult, c vfC17Case) {
 		s := silent && !release
 		if !s {
 			toTarget++
+			if c.Mode == "stale-only" && toTarget >= c.Cut {
+				// the silence begins right behind this datagram: the target's answer to it never reaches the
+				// peer, whose timer then repeats a flight the target has already processed
+				silent = true
+				silenceAt = n.Now()
+			}
 		} else {
 			held = append(held, heldDg{w.Data, n.Now()})
 		}
@@ -178,6 +184,83 @@ func vfC17Silence(res *vfResult, c vfC17Case) {
 		close(done)
 	}()
 	res.Eval(1)
+	if c.Mode == "stale-only" {
+		// after two retransmissions deliver only the peer's own timer retransmissions of a flight the target had
+		// fully received before the silence: retransmitted data must not restore the interval, so the target's
+		// schedule continues on the original grid
+		t1 := 3*c.Interval + c.Interval/2
+		time.Sleep(t1)
+		synctest.Wait()
+		mu.Lock()
+		h := held
+		held = nil
+		sa := silenceAt
+		isSilent := silent
+		mu.Unlock()
+		fresh := 0
+		for _, d := range h {
+			if d.at < sa+c.Interval {
+				fresh++
+			}
+		}
+		if !isSilent || fresh > 0 || len(h) == 0 {
+			res.Count("stale_only_not_applicable", 1)
+			res.Count(fmt.Sprintf("stale_only_na/silent=%v/fresh=%v/held=%v", isSilent, fresh > 0, len(h) > 0), 1)
+			p.Close()
+			<-done
+			synctest.Wait()
+
+			return
+		}
+		for _, d := range h {
+			n.Deliver(string(target.EP.addr), d.data, vfAddrOf(peer.Name))
+		}
+		synctest.Wait()
+		time.Sleep(2 * time.Minute)
+		synctest.Wait()
+		preB, postB := vfBurstsOf(n, target.Name, string(target.EP.addr), sa, true)
+		if len(preB) == 0 || len(postB) < 3 {
+			res.Count("stale_only_not_applicable", 1)
+		} else {
+			// Receiving a retransmission may restart the timer (RFC 6347 4.2.4 re-sends on it), so the instants are
+			// not pinned to the original grid. What retransmitted data must not do is restore the interval: the gaps
+			// between consecutive timer retransmissions never shrink while only such data arrives.
+			t0 := preB[len(preB)-1].At
+			var timer []vfBurst
+			for _, b := range postB {
+				if b.At != t1 { // answers to the delivered datagrams themselves
+					timer = append(timer, b)
+				}
+			}
+			bad := ""
+			prev := t0
+			gap := time.Duration(0)
+			for i, b := range timer {
+				g := b.At - prev
+				if i > 0 && g < gap && b.At > t1 {
+					bad = fmt.Sprintf("gap before retransmission %d (at %v) is %v, the one before it was %v", i+1, b.At, g, gap)
+
+					break
+				}
+				prev, gap = b.At, g
+			}
+			if len(timer) < 4 {
+				res.Count("stale_only_too_few_retransmissions", 1)
+			}
+			res.Count("stale_only_observed", 1)
+			res.NonTrivial("stale-only/" + c.String())
+			if bad != "" {
+				res.Violate(fmt.Sprintf("C17:retransmitted-data-restored-the-interval:%s:%s", vfVerClass(c.V), c.Target),
+					fmt.Sprintf("%s: only retransmitted (already processed) data arrived at %v, yet the back-off was undone (t0=%v): %s", c.String(), t1, t0, bad),
+					map[string]any{"case": c.String(), "bursts": postB})
+			}
+		}
+		p.Close()
+		<-done
+		synctest.Wait()
+
+		return
+	}
 	if c.Mode == "restore" || c.Mode == "restore-dup" {
 		// after the second retransmission (t0+I, t0+3I or t0+I, t0+2I) deliver what was withheld
 		t1 := 3*c.Interval + c.Interval/2
@@ -203,7 +286,34 @@ func vfC17Silence(res *vfResult, c vfC17Case) {
 		synctest.Wait()
 		ems := n.Emissions(target.Name)[before:]
 		bs := vfBursts(ems)
-		if len(bs) >= 2 && bs[0].At == n.t0Offset(t1) {
+		// bs[1] counts as the retransmission of the flight sent at t1 only if its datagrams (by size) were all
+		// part of the burst at t1: a completed DTLS 1.3 endpoint answers late retransmissions with ACKs at t1
+		// while its unacknowledged ticket keeps its own, already backed-off schedule (not a new flight)
+		sameFlight := false
+		if len(bs) >= 2 {
+			sizes := map[int]int{}
+			for _, e := range ems {
+				if e.VTime == bs[0].At {
+					sizes[len(e.Data)]++
+				}
+			}
+			sameFlight = true
+			for _, e := range ems {
+				if e.VTime == bs[1].At {
+					if sizes[len(e.Data)] == 0 {
+						sameFlight = false
+					}
+					sizes[len(e.Data)]--
+				}
+			}
+		}
+		// ... and only if the burst at t1 is one transmission of that flight: when the delivered datagrams include
+		// the peer's retransmissions, a DTLS 1.3 endpoint re-sends its flight once per such datagram at t1, and
+		// which of those arrivals the timer then counts from is not fixed by the statement
+		if len(bs) >= 2 && bs[0].N != bs[1].N {
+			sameFlight = false
+		}
+		if len(bs) >= 2 && bs[0].At == n.t0Offset(t1) && sameFlight {
 			// bs[0] = the new flight sent in response at t1; bs[1] = its first retransmission
 			gap := bs[1].At - bs[0].At
 			res.Count(c.Mode+"_observed", 1)
@@ -569,10 +679,43 @@ func TestVF_C17(t *testing.T) {
 				if cut > 0 {
 					cases = append(cases, vfC17Case{V: v, Target: tgt, Cut: cut, Interval: time.Second, Backoff: true, Mode: "restore"})
 					cases = append(cases, vfC17Case{V: v, Target: tgt, Cut: cut, Interval: time.Second, Backoff: true, Mode: "restore-dup"})
+					cases = append(cases, vfC17Case{V: v, Target: tgt, Cut: cut, Interval: time.Second, Backoff: true, Mode: "stale-only"})
 				}
 			}
 			cases = append(cases, vfC17Case{V: v, Target: tgt, Interval: time.Second, Backoff: true, Mode: "hostile"})
 		}
+	}
+	if vfEnv().Replay != "" {
+		var rf struct {
+			Replay struct {
+				Case string `json:"case"`
+			} `json:"replay"`
+		}
+		vfLoadReplay(t, &rf)
+		vfDumpWire = true
+		var sel []vfC17Case
+		for _, c := range cases {
+			if c.String() == rf.Replay.Case {
+				sel = append(sel, c)
+			}
+		}
+		if len(sel) == 0 {
+			res.Inconc("replay names no case of this tier: " + rf.Replay.Case)
+		}
+		for _, c := range sel {
+			synctest.Test(t, func(t *testing.T) {
+				if c.Mode == "hostile" {
+					vfC17Hostile(res, c)
+				} else {
+					vfC17Silence(res, c)
+				}
+			})
+		}
+		res.NonTrivial("replay-extra")
+		res.Sample("replay")
+		res.Finish(t)
+
+		return
 	}
 	vfCaseName = func(i int) string { return cases[i].String() }
 	vfBubbles(t, len(cases), func(t *testing.T, i int) {
@@ -591,6 +734,7 @@ func TestVF_C17(t *testing.T) {
 	res.Floor("silence/cookie-request", 2)
 	res.Floor("silence/completed", 4)
 	res.Floor("restore_observed", 5)
+	res.Floor("stale_only_observed", 5)
 	res.Floor("final_flight_resent_on_peer_retransmission", 2)
 	_ = sort.Strings
 	res.Finish(t)
